@@ -160,7 +160,7 @@ namespace riddle
       return tk;
     }
 
-    token *mk_integer_token(const std::string &str) noexcept
+    token *mk_integer_token(const std::string &str)
     {
       token *tk = new int_token(start_line, start_pos, end_line, end_pos, static_cast<smt::I>(std::stol(str)));
       start_line = end_line;
@@ -168,7 +168,7 @@ namespace riddle
       return tk;
     }
 
-    token *mk_rational_token(const std::string &intgr, const std::string &dec) noexcept
+    token *mk_rational_token(const std::string &intgr, const std::string &dec)
     {
       token *tk = new real_token(start_line, start_pos, end_line, end_pos, smt::rational(static_cast<smt::I>(std::stol(intgr + dec)), static_cast<smt::I>(std::pow(10, dec.size()))));
       start_line = end_line;
